@@ -181,7 +181,41 @@ func countLifecycle(c *kit.Ctx, w World) {
 	}
 }
 
+// countSelectors buckets PDB selector shapes and label-less pods.
+func countSelectors(c *kit.Ctx, w World) {
+	unl := false
+	for _, n := range w.Nodes {
+		for _, p := range n.Pods {
+			if len(p.Labels) == 0 {
+				c.Count("pod:no-labels")
+				unl = true
+			}
+		}
+	}
+	for _, b := range w.PDBs {
+		shape := "matchLabels"
+		switch {
+		case b.Invalid:
+			shape = "invalid"
+		case b.Sel == nil:
+			shape = "nil"
+		case len(*b.Sel) == 0 && len(b.Exprs) == 0:
+			shape = "empty"
+		case len(b.Exprs) > 0:
+			shape = "expr"
+			if len(*b.Sel) > 0 {
+				shape = "matchLabels+expr"
+			}
+			for _, e := range b.Exprs {
+				shape += ":" + e.Op
+			}
+		}
+		c.Count("pdbsel:" + shape + map[bool]string{true: ":world-has-unlabeled-pod", false: ""}[unl])
+	}
+}
+
 func emitB(c *kit.Ctx, w World, cell, baseName string) {
+	countSelectors(c, w)
 	countLifecycle(c, w)
 	countHistory(c, w)
 	o := runWorld(c, &w)
@@ -241,7 +275,10 @@ func main() {
 		for _, p := range ps {
 			// TGP variants: none; on the NodeClaim; on the pool template only; on both (different values)
 			for _, tgp := range []string{"", "tgp", "pool-tgp-only", "pool-tgp-differs-from-claim"} {
-				podLevel := p.Group == "pod-dnd" || p.Group == "pdb" || p.Group == "fault" || p.Group == "none"
+				podLevel := p.Group == "pod-dnd" || p.Group == "pdb" || p.Group == "pdb-selector" || p.Group == "fault" || p.Group == "none"
+				if p.Group == "pdb-selector" && (b.Pods == 0 || (tgp != "" && tgp != "tgp")) {
+					continue // selector shapes: busy bases only, without / with the NodeClaim TGP
+				}
 				if tgp == "pool-tgp-differs-from-claim" && b.Pods == 0 {
 					continue // the both-TGP variant only on the busy bases (keeps the quick tier near 3000 cases)
 				}
@@ -337,6 +374,36 @@ func main() {
 				}
 			}
 		}
+		// random selector shapes against random (sometimes label-less) pods
+		for _, n := range g.nodes {
+			for pi := range n.Pods {
+				p := &n.Pods[pi]
+				if r.Chance(1, 6) {
+					p.Labels = kit.Pick(r, []map[string]string{nil, {}, {"tier": "db"}})
+				}
+				if r.Chance(1, 6) {
+					b := PDB{NS: kit.Pick(r, []string{p.NS, p.NS, "other"}), Name: fmt.Sprintf("rpdb%d-%d", i, len(g.W.PDBs)), Allowed: int32(r.Intn(2)), Sel: &map[string]string{}}
+					switch r.Intn(6) {
+					case 0: // {}
+					case 1:
+						b.Sel = nil
+					case 2:
+						b.Exprs = []Expr{{kit.Pick(r, []string{"app", "tier"}), "DoesNotExist", nil}}
+					case 3:
+						b.Exprs = []Expr{{kit.Pick(r, []string{"app", "tier"}), "NotIn", []string{"db", "x"}}}
+					case 4:
+						b.Exprs = []Expr{{kit.Pick(r, []string{"app", "tier"}), kit.Pick(r, []string{"Exists", "In"}), nil}}
+						if b.Exprs[0].Op == "In" {
+							b.Exprs[0].Values = []string{"db", p.Labels["app"] + ""}
+						}
+					case 5:
+						b.Sel = &map[string]string{"tier": "db"}
+					}
+					g.W.PDBs = append(g.W.PDBs, b)
+					note += "random-pdb "
+				}
+			}
+		}
 		w := g.finish()
 		w.Note = "random " + note
 		c.Count(fmt.Sprintf("random:nodes=%d", len(w.Nodes)))
@@ -385,7 +452,7 @@ func main() {
 	c.Meta.Extra = map[string]interface{}{"assumptions": []string{
 		"time.ParseDuration / strconv.ParseFloat (Go standard library) are applied by the harness to annotation values before they enter the model; the positivity, start-time and clamping logic is in the model",
 		"pod deletion costs and priorities are int32 integers (as the API server enforces), so EvictionCost is exact in units of 2^-27",
-		"label selectors of PDBs use matchLabels only",
+		"PDB label selectors: matchLabels and matchExpressions In / NotIn / Exists / DoesNotExist (labels.Selector semantics); unparsable selectors are the FPdbs fault",
 		"PodDisruptionBudget.Status.DisruptionsAllowed >= 0 (maintained by the kube disruption controller)",
 	}}
 	c.Finish("From KV Require Import C07.Model C07.Check.", "case", "check_all", 400)
